@@ -55,7 +55,7 @@ PROPS = {
     ),
     "C11": dict(
         level="exploration",
-        technique="bounded-exhaustive enumeration of all operand pairs over {a,b,/,.} against naive byte-slice definitions, operands against guard pages; raw operands holding NUL bytes, multi-byte characters with shared lead bytes, literal templates, length ladders; two build profiles",
+        technique="bounded-exhaustive enumeration of all operand pairs over {a,b,/,.} against naive byte-slice definitions, operands against guard pages; operands sharing storage (every tail of the receiver as the other operand, both roles; pairs stored back to back in one block), raw operands holding NUL bytes, multi-byte characters with shared lead bytes, literal templates, length ladders; two build profiles",
         steps=[_s("h-str", "c11"), _s("h-str", "c11", profile="nochk", name="c11-nochk")],
         assumptions=["the code under test distinguishes only '/' , NUL and equality of bytes, so a 4-letter alphabet exercises every comparison outcome"],
     ),
@@ -84,7 +84,7 @@ PROPS = {
     ),
     "C19": dict(
         level="exploration",
-        technique="bounded-exhaustive Cartesian boundary grid (closed once under exact t+-d) through every public arithmetic/comparison op of Instant/SystemTime/MonotonicInstant against exact i128 nanosecond arithmetic, in two build profiles; sleep against a virtual clock over every interruption script; clock identity per (link mode x entry point x vDSO/syscall path) cell with kernel-sandwiched readings (sampled inside a cell)",
+        technique="bounded-exhaustive Cartesian boundary grid (closed once under exact t+-d) through every public arithmetic/comparison op of Instant/SystemTime/MonotonicInstant against exact i128 nanosecond arithmetic, in two build profiles; sleep against a virtual clock over every interruption script; clock identity per (link mode x entry point x vDSO/syscall path) cell with kernel-sandwiched readings (sampled inside a cell), each real-vDSO cell also inside a time namespace with distinct monotonic / boottime offsets, synthetic vDSO images answering differently per clock id",
         steps=[_s("h-time", "arith"),
                _s("h-time", "arith", profile="nochk", name="arith-nochk"),
                _s("h-time", "clock"),
@@ -145,7 +145,7 @@ PROPS = {
 
     "C16": dict(
         level="fault_enumeration",
-        technique="answer-script enumeration within a deviation budget against an in-process model kernel (syscall seam; O_NONBLOCK, close-on-exec, pending inbound data and poll event masks modelled) for the real stream/listener code; exhaustive small-domain enumeration of fd-passing cases on the real kernel with guard-paged control buffers; model-kernel conformance pass incl. real fork+exec; sampled bulk transfers",
+        technique="answer-script enumeration within a deviation budget against an in-process model kernel (syscall seam; O_NONBLOCK, close-on-exec, pending inbound data, poll event masks and ppoll's write-back of the remaining time modelled; timed waits bounded from both sides) for the real stream/listener code; exhaustive small-domain enumeration of fd-passing cases on the real kernel with guard-paged control buffers; model-kernel conformance pass incl. real fork+exec; sampled bulk transfers",
         steps=[_s("h-net", "model"), _s("h-net", "cmsg"), _s("h-net", "cmsg", profile="nochk", name="cmsg-nochk"),
                _s("h-net", "conformance"), _s("h-net", "bulk")],
         assumptions=["the model kernel only gives answers Linux gives for a single-owner stream; each answer kind is witnessed on the real kernel first (conformance step)",
